@@ -146,6 +146,24 @@ inline void apply_op(Scenario& s, const Corpus& corpus, const std::vector<std::s
       sim::Rng r((uint64_t)num(4));
       for (auto& c : ins) c = kind == "nul" ? '\0' : kind == "cr" ? '\r' : kind == "nl" ? '\n' : kind == "space" ? ' ' : kind == "hash" ? '#' : (char)r.below(256);
       if (d.size() + n <= 70000) { d.insert(p, ins); damaged("insert_bytes"); }
+   } else if (op == "crlf") {
+      // the document as a DOS text file (every LF becomes CR LF); "crlf mac" = CR only
+      std::string nd; nd.reserve(d.size() + d.size() / 16);
+      const bool mac = t.size() > 1 && t[1] == "mac";
+      for (char c : d) { if (c == '\n') { nd += '\r'; if (!mac) nd += '\n'; } else nd += c; }
+      if (nd.size() <= 70000) { d = nd; damaged("crlf_line_endings"); }
+   } else if (op == "pad") {
+      // pad N: comment lines in front so that the document is exactly N bytes longer (moves the content across buffer boundaries)
+      size_t n = (size_t)std::min<long long>(std::max<long long>(0, num(1)), 66000);
+      if (d.size() + n > 70000) n = d.size() >= 70000 ? 0 : 70000 - d.size();
+      std::string padding;
+      while (padding.size() < n) { const size_t l = std::min<size_t>(n - padding.size(), 64); padding += (l == 1) ? std::string("\n") : "#" + std::string(l - 2, '-') + "\n"; }
+      if (n) { d.insert(0, padding); s.base_intact = false; s.cfg_known_format = s.cfg_known_format; note_fault(s, "padding_comment_lines"); }
+   } else if (op == "put") {
+      // put POS KIND: overwrite ONE byte at an absolute offset (not modulo: skipped beyond the end) with cr|nl|nul|hash|space|B
+      const long long p = num(1);
+      const std::string kind = t.size() > 2 ? t[2] : "cr";
+      if (p >= 0 && (size_t)p < d.size()) { d[(size_t)p] = kind == "nul" ? '\0' : kind == "cr" ? '\r' : kind == "nl" ? '\n' : kind == "space" ? ' ' : kind == "hash" ? '#' : 'B'; damaged("byte_at_offset"); }
    } else if (op == "dupline" || op == "dropline" || op == "swaplines") {
       auto ls = line_starts(d);
       if (d.empty()) return;
@@ -336,7 +354,10 @@ inline std::vector<std::string> gen_plan(const Corpus& corpus, uint64_t seed, st
    if (mode == 4 || mode == 7) { static const char* const ty[] = {"slha", "gm2calc", "thdm"}; p.push_back(std::string("type ") + ty[r.below(3)]); }
    const size_t nops = 1 + r.below(12);
    auto byte_op = [&]() -> std::string {
-      switch (r.below(7)) {
+      switch (r.below(9)) {
+      case 7: return r.chance(0.8) ? "crlf" : "crlf mac";
+      case 8: { static const long b[] = {256, 512, 1024, 2048, 4096, 8192, 16384, 32768, 65536}; static const char* const k[] = {"cr", "nl", "nul", "hash", "space", "B"};
+                return "put " + std::to_string(b[r.below(9)] - 2 + (long)r.below(4)) + " " + k[r.below(6)]; }
       case 6: return "del " + std::to_string(r.next() >> 1) + " " + std::to_string(r.below(16));
       case 0: return "trunc " + std::to_string(r.next() >> 1);
       case 1: return "flip " + std::to_string(r.next() >> 1) + " " + std::to_string(r.below(8));
